@@ -22,6 +22,8 @@ PROGRAMS = {
            ['let app = ::entrait::Impl::new(());', 'rt::out("r", app.f1(1, 2));'], "12"),
     "fn_async": ("#[::entrait::entrait(pub {TR})]\n    pub async fn f2(deps: %s, target: &i64, result: i64) -> i64 {{ *target * 10 + result }}" % ANY,
                  ['let app = ::entrait::Impl::new(());', 'rt::out("r", rt::block_on(app.f2(&1, 2)));'], "12"),
+    "fn_async_ms": ("#[::entrait::entrait(pub {TR}, ?Send)]\n    pub async fn f2(deps: %s, target: &i64, result: i64) -> i64 {{ *target * 10 + result }}" % ANY,
+                    ['let app = ::entrait::Impl::new(());', 'rt::out("r", rt::block_on(app.f2(&1, 2)));'], "12"),
     "fn_byval": ("#[::entrait::entrait(pub {TR})]\n    pub fn f3<D: ::core::any::Any>(deps: D, inner: i64) -> i64 {{ inner + 1 }}",
                  ['rt::out("r", ::entrait::Impl::new(()).f3(1));'], "2"),
     "fn_byval_async": ("#[::entrait::entrait(pub {TR})]\n    pub async fn f3<D: ::core::any::Any + ::core::marker::Send>(deps: D, inner: i64) -> i64 {{ inner + 1 }}",
@@ -38,6 +40,13 @@ PROGRAMS = {
     "trait_self": ("#[::entrait::entrait]\n    pub trait {TR} {{ fn h1(&self, target: i64, this: i64) -> i64; async fn h2(&self, result: i64) -> i64; }}\n"
                    "    pub struct App;\n    impl {TR} for App {{ fn h1(&self, a: i64, b: i64) -> i64 {{ a * 10 + b }} async fn h2(&self, r: i64) -> i64 {{ r + 1 }} }}",
                    ['let app = ::entrait::Impl::new(App);', 'rt::out("r", format!("{}|{}", {TR}::h1(&app, 1, 2), rt::block_on({TR}::h2(&app, 1))));'], "12|2"),
+    "trait_self_ms": ("#[::entrait::entrait(?Send)]\n    pub trait {TR} {{ async fn h2(&self, result: i64) -> i64; }}\n"
+                      "    pub struct App;\n    impl {TR} for App {{ async fn h2(&self, r: i64) -> i64 {{ r + 1 }} }}",
+                      ['let app = ::entrait::Impl::new(App);', 'rt::out("r", rt::block_on({TR}::h2(&app, 1)));'], "2"),
+    "static_target_ms": ("#[::entrait::entrait({TR}Impl, delegate_by = Delegate{TR}, ?Send)]\n    pub trait {TR} {{ async fn k2(&self, this: i64) -> i64; }}\n"
+                         "    pub struct X;\n    #[::entrait::entrait]\n    impl {TR}Impl for X {{\n        pub async fn k2(deps: %s, this: i64) -> i64 {{ this * 3 }}\n    }}\n"
+                         "    pub struct App;\n    impl Delegate{TR}<Self> for App {{ type Target = X; }}" % ANY,
+                         ['let app = ::entrait::Impl::new(App);', 'rt::out("r", rt::block_on({TR}::k2(&app, 2)));'], "6"),
     "trait_ref": ("#[::entrait::entrait(delegate_by = ref)]\n    pub trait {TR} {{ fn h(&self, target: i64, delegate: i64) -> i64; }}\n"
                   "    pub struct Inner;\n    impl {TR} for Inner {{ fn h(&self, a: i64, b: i64) -> i64 {{ a * 10 + b }} }}\n"
                   "    pub struct App(pub Inner);\n    impl ::core::convert::AsRef<dyn {TR}> for App {{ fn as_ref(&self) -> &(dyn {TR} + 'static) {{ &self.0 }} }}",
